@@ -25,7 +25,8 @@ MANIFEST = {
              "ssdp.py on every run.  The model is tied to the code by differential runs: every decode result (request line, "
              "iteration order, look-ups by respelled names, as_dict, case_map) is compared, and the Lean judge is evaluated on "
              "the implementation's observations (round trip, equal results for equal (datagram, source) across histories with "
-             "cache eviction, earlier results unchanged unless their owner changed them)."),
+             "cache eviction, earlier results unchanged unless their owner changed them — including key-set changes (delete, new and "
+             "re-spelled names, clear, replace) followed by re-decodes, with the cached layers themselves read before and after)."),
     "note": ("Trusted: Lean kernel + propext/Classical.choice/Quot.sound; aiohttp HeadersParser, multidict, urllib.parse, "
              "ipaddress and the UTF-8 codec are modelled by transcription and sampled; object aliasing between results (CPython "
              "references) is outside the value-level model: independence of earlier results is carried by the correspondence "
